@@ -228,6 +228,76 @@ def equivalent(model, ds, do):
     return None
 
 
+def oracle_ext(tools, model, src, w, t, c):
+    """the statement on schemas with constructs outside the Lean declaration model: accepted; every declaration present with
+    the same tokens up to parentheses and split literals, and every `:= expr` the same expression (Lean `ast`); stable."""
+    rc, out, err = tools.exppp(src, w, t, c)
+    if rc != 0 or out is None:
+        return [("exppp-failed", f"exppp exits {rc} on an accepted schema: {err[-300:]}")], None
+    probs = []
+    ok, msg = tools.accepts(out)
+    if not ok:
+        probs.append(("rejected", "the pretty-printed text is rejected by check-express: " + " | ".join(msg.strip().split("\n")[:3])))
+    ds = X.split_decls(fold(X.lex(src)))            # input side
+    toks_out = None
+    try:
+        toks_out = X.lex(body_of(out))
+        do = X.split_decls(fold(toks_out))
+    except (X.LexError, X.DeclError) as ex:
+        probs.append(("unreadable", f"the pretty-printed text cannot be split into declarations ({ex}); " + (locate(out, ex) if isinstance(ex, X.LexError) else "")))
+        return probs, out
+    if set(ds) != set(do):
+        probs.append(("not-equivalent", f"declarations {sorted(set(ds) - set(do))} missing / {sorted(set(do) - set(ds))} added"))
+    else:
+        for key in ds:
+            a, b = X.no_parens(ds[key]), X.no_parens(do[key])
+            if a != b:
+                j = next((k for k in range(min(len(a), len(b))) if a[k] != b[k]), min(len(a), len(b)))
+                probs.append(("not-equivalent", f"{key[0]} {key[1]}: tokens differ (parentheses ignored): `{X.src_text(a[max(0,j-5):j+5])}` -> `{X.src_text(b[max(0,j-5):j+5])}`"))
+                break
+            sa, sb = X.assign_segments(ds[key]), X.assign_segments(do[key])
+            if len(sa) != len(sb):
+                probs.append(("not-equivalent", f"{key[0]} {key[1]}: {len(sa)} assignments/initialisers -> {len(sb)}")); break
+            bad = next((r for r in (same_expr(model, x, y, f"{key[0]} {key[1]}") for x, y in zip(sa, sb)) if r), None)
+            if bad:
+                probs.append(("not-equivalent", bad)); break
+    if ok:
+        rc2, out2, err2 = tools.exppp(out, w, t, c)
+        if rc2 != 0 or out2 is None:
+            probs.append(("unstable", f"printing the output again fails (exit {rc2}): {err2[-200:]}"))
+        else:
+            try:
+                t1, t2 = resplit(toks_out), resplit(X.lex(body_of(out2)))
+                if t1 != t2:
+                    j = next((k for k in range(min(len(t1), len(t2))) if t1[k] != t2[k]), min(len(t1), len(t2)))
+                    probs.append(("unstable", "second printing differs in more than line breaks: " +
+                                  X.src_text(t1[max(0, j - 6):j + 6]) + "  ->  " + X.src_text(t2[max(0, j - 6):j + 6])))
+            except X.LexError as ex:
+                probs.append(("unstable", f"the second printing cannot be split into tokens ({ex}); " + locate(out2, ex)))
+    return probs, out
+
+
+def evaluate_ext(ctx, tools, model, src, settings, label=""):
+    ok, msg = tools.accepts(src)
+    if not ok:
+        ctx.hist("inputs", "extended: rejected-by-check-express (not in the property's domain)")
+        ctx.cov.setdefault("ext_rejected_sample", msg.strip()[:200])
+        return 0
+    n = 0
+    for (w, t, c) in settings:
+        ctx.count(1, key=(hashlib.sha1(src.encode()).hexdigest(), w, t, c))
+        ctx.hist("line length", str(w)); ctx.hist("flags", f"t={int(t)} c={int(c)}"); ctx.hist("correspondence", "oracle only (extended declarations)")
+        probs, out = oracle_ext(tools, model, src, w, t, c)
+        for kind, detail in probs:
+            n += 1
+            ctx.violation(canon_key(kind + "-ext", src), detail,
+                          {"schema": src, "exppp_args": ["-l", str(w)] + (["-t"] if t else []) + (["-c"] if c else []),
+                           "kind": kind, "extended": True, "output": out})
+        if probs:
+            break
+    return n
+
+
 # ------------------------------------------------------------------ shrinking of generated schemas
 def subtrees(e):
     k = e[0]
@@ -486,6 +556,19 @@ def run(ctx):
             evaluate(ctx, tools, model, src, settings_for(ctx, quick), sc=sc, label=f"generated#{i}")
             if i < 2:
                 ctx.sample({"schema": src[:1500]})
+        # 2b. extended declarations (SUPERTYPE/SUBTYPE, UNIQUE, INVERSE, enumeration/select, functions, procedures, rules): oracle only
+        next_ = 20 if quick else 150
+        for i in range(next_):
+            if len(ctx.violations) >= 4 or time.time() - t0 > (75 if quick else 1100):
+                break
+            g = X.GenExt(ctx.rng, feats, split_safe=not split_paren)
+            g.simple_index = not index_paren
+            src = g.ext_schema_src()
+            ctx.hist("inputs", "generated (extended declarations)")
+            evaluate_ext(ctx, tools, model, src, settings_for(ctx, True) if quick else [(w, tt, False) for w in WIDTHS for tt in (False, True)],
+                         label=f"extended#{i}")
+            if i == 0:
+                ctx.sample({"extended_schema": src[:1500]})
         ctx.cov["distribution"]["features"] = dict(sorted(feats.items()))
         # 3. thorough: shipped schemas must at least print to something accepted and stable
         if not quick and not ctx.violations:
@@ -548,7 +631,10 @@ def replay(ctx, path):
         if "schema" in r:
             a = r.get("exppp_args", ["-l", "80"])
             w = int(a[a.index("-l") + 1]) if "-l" in a else 130
-            evaluate(ctx, tools, model, r["schema"], [(w, "-t" in a, "-c" in a)], label="replay")
+            if r.get("extended"):
+                evaluate_ext(ctx, tools, model, r["schema"], [(w, "-t" in a, "-c" in a)], label="replay")
+            else:
+                evaluate(ctx, tools, model, r["schema"], [(w, "-t" in a, "-c" in a)], label="replay")
         elif "schema_file" in r:
             a = r.get("exppp_args", ["-l", "80"])
             shipped(ctx, tools, open(os.path.join(B.REPO, r["schema_file"]), encoding="latin-1").read(), r["schema_file"], int(a[a.index("-l") + 1]))
